@@ -335,6 +335,34 @@ def sameOld (h h' : Heap) : Bool :=
   (List.range h.arrs.size).all (fun a => h'.arr a == h.arr a) &&
   (List.range h.objs.size).all (fun o => h'.obj o == h.obj o)
 
+/-! non-vacuity of the heap-level lemmas at the top of this file (`copyValue_local`,
+    `read_past_end_is_missing`, `memberStep_readonly`, `setMember_object_local`,
+    `setMember_array_in_range`, `negative_index`, `index_before_start_errors`), on the example heap -/
+
+/-- `copyValue_local`: copying cell 2 (the number 1) into cell 5 succeeds -/
+example : (match copyValue 2 5 exSt with
+    | .ok (.ok c) s' => c == 5 && s'.heap.get 5 == .num F64.one | _ => false) = true := by
+  decide +kernel
+/-- `read_past_end_is_missing`: index 1 on an empty array -/
+example : ((⟨#[.arr 0], #[#[]], #[]⟩ : Heap).arr 0).size ≤ F64.one.toGoInt.toNat ∧
+    0 ≤ F64.one.toGoInt := by decide +kernel
+/-- `memberStep_readonly`: `$["hi"]` (base cell 0 holds the root object, key cell 4 the string
+    `"hi"`): the base is not unset and the step succeeds with a fresh cell (6) -/
+example : (exSt.heap.get 0).kind ≠ .unknown ∧
+    (match memberStep 0 0 4 exSt with
+     | .ok c s' => c == 6 && s'.heap.cells.size == 7 | _ => false) = true := by decide +kernel
+/-- `setMember_object_local` (`ho`), `setMember_array_in_range` (`hi`, `hlt`: index 1 of `$.a`) -/
+example : 0 < exHeap.objs.size ∧
+    resolveIndex (exHeap.arr 0).size F64.one.toGoInt = some 1 ∧ 1 < (exHeap.arr 0).size := by
+  decide +kernel
+/-- `negative_index`: `[-1]` on a two-element array is element 1, `[-3]` is out of range -/
+example : resolveIndex 2 (-((1 : Nat) : Int)) = some 1 ∧ resolveIndex 2 (-((3 : Nat) : Int)) = none := by
+  decide
+/-- `index_before_start_errors`: `$.a[-3]` (two elements) -/
+example : (F64.neg (F64.add F64.one (F64.add F64.one F64.one))).toGoInt < 0 ∧
+    ((exHeap.arr 0).size : Int) + (F64.neg (F64.add F64.one (F64.add F64.one F64.one))).toGoInt < 0 := by
+  decide +kernel
+
 example : Expr.readOnly true exRead = true := by decide +kernel
 
 /-- `$.a[-1] + 1 < 3 && !($.nope.deeper is null)`: read-only without calls -/
@@ -603,6 +631,17 @@ example :
     ((resState r2).heap.get 2).speculative = false := by
   refine ⟨eq_ok_of_resVal (by decide +kernel), eq_ok_of_resVal (by decide +kernel), by decide +kernel⟩
 
+/-- `y = 7` where the variable `y` is bound to cell 2: the hypotheses of `assign_var_frame` hold
+    (`n + 1 = 10`) -/
+example :
+    let s : St := { exSt with frames := [⟨b!"<root>", [(b!"y", 2)]⟩] }
+    let r2 := evalExpr Program.empty 10 (numL b!"7") s
+    ((tk .ident b!"y").tag == Tag.dollar) = false ∧
+    lookupFrames s.frames (tk .ident b!"y").text = some 2 ∧ 2 < s.heap.cells.size ∧
+    (s.heap.get 2).speculative = false ∧ r2 = .ok 6 (resState r2) := by
+  refine ⟨by decide +kernel, by decide +kernel, by decide +kernel, by decide +kernel,
+    eq_ok_of_resVal (by decide +kernel)⟩
+
 
 /-! ### the frame rule for an assignment that creates its target
 
@@ -771,6 +810,41 @@ example :
     r1 = .ok 8 (resState r1) ∧ r2 = .ok 9 (resState r2) ∧
     (resState r2).heap.get 8 = .nil (some ⟨5, .str b!"k"⟩) ∧ (resState r2).heap.get 5 = .unknown := by
   refine ⟨eq_ok_of_resVal (by decide +kernel), eq_ok_of_resVal (by decide +kernel),
+    by decide +kernel, by decide +kernel⟩
+
+/-- `$.new = 7`: the hypotheses of `assign_new_member` hold (stand-in cell 7 for the member `new`
+    of cell 0, which holds the root object) -/
+example :
+    let r1 := evalExpr Program.empty 10 (dot dollar b!"new") exSt
+    let r2 := evalExpr Program.empty 10 (numL b!"7") (resState r1)
+    r1 = .ok 7 (resState r1) ∧ r2 = .ok 8 (resState r2) ∧
+    (resState r2).heap.get 7 = .nil (some ⟨0, .str b!"new"⟩) ∧ (resState r2).heap.get 0 = .obj 0 := by
+  refine ⟨eq_ok_of_resVal (by decide +kernel), eq_ok_of_resVal (by decide +kernel),
+    by decide +kernel, by decide +kernel⟩
+
+/-- `$.a[4] = 7`: the hypotheses of `assign_array_pad` hold (stand-in cell 8 for index 4 of cell 1,
+    which holds the two-element array 0) -/
+example :
+    let r1 := evalExpr Program.empty 10 (idx (dot dollar b!"a") (numL b!"4")) exSt
+    let r2 := evalExpr Program.empty 10 (numL b!"7") (resState r1)
+    r1 = .ok 8 (resState r1) ∧ r2 = .ok 9 (resState r2) ∧
+    (∃ x, (resState r2).heap.get 8 = .nil (some ⟨1, .num x⟩) ∧
+      resolveIndex ((resState r2).heap.arr 0).size x.toGoInt = some 4) ∧
+    (resState r2).heap.get 1 = .arr 0 ∧ ((resState r2).heap.arr 0).size ≤ 4 ∧ 4 ≤ fillLimit := by
+  refine ⟨eq_ok_of_resVal (by decide +kernel), eq_ok_of_resVal (by decide +kernel),
+    ⟨(F64.parse b!"4").getD F64.one, by decide +kernel, by decide +kernel⟩,
+    by decide +kernel, by decide +kernel, by decide +kernel⟩
+
+/-- `$.u[2] = 7`: the hypotheses of `assign_unset_base_array` hold (stand-in cell 8 for index 2 of
+    the unset cell 5) -/
+example :
+    let r1 := evalExpr Program.empty 10 (idx (dot dollar b!"u") (numL b!"2")) exSt
+    let r2 := evalExpr Program.empty 10 (numL b!"7") (resState r1)
+    r1 = .ok 8 (resState r1) ∧ r2 = .ok 9 (resState r2) ∧
+    (∃ x, (resState r2).heap.get 8 = .nil (some ⟨5, .num x⟩) ∧ resolveIndex 0 x.toGoInt = some 2) ∧
+    (resState r2).heap.get 5 = .unknown ∧ 2 ≤ fillLimit := by
+  refine ⟨eq_ok_of_resVal (by decide +kernel), eq_ok_of_resVal (by decide +kernel),
+    ⟨(F64.parse b!"2").getD F64.one, by decide +kernel, by decide +kernel⟩,
     by decide +kernel, by decide +kernel⟩
 
 /-- … and its effect: `$.u` is now the fresh object `{k: 7}`, every other old cell, the array and
